@@ -2,7 +2,10 @@
 
 Differential monitor: the real GenericCheck (through Enforcer.enforce) against
 a reference walk written from the statement, independent of `ast`."""
+import collections
+import collections.abc
 import re
+import types
 
 from pv.core import env
 
@@ -13,17 +16,18 @@ RULE = ('cases = lhs (literal: quoted string in either quote style, integer, flo
         'depth 1-4, including spellings that look like literals such as None / True.x / 1.5) x rhs (literal text, '
         '%(key)s, mixed prefix%(key)s) x credentials from a recursive generator (dicts, lists of dicts, lists of lists, '
         'every JSON scalar at every position, missing siblings) x flat targets with every JSON scalar type x context '
-        '(alone, under not, beside constants). Strata `context-sequence` (a RequestContext whose attributes are rebound / which is copied between calls) and `overlap` (two requests evaluating the same check at the same time, every single pre-emption). Non-trivial = the reference allows, or the path runs into a list / a '
+        '(alone, under not, beside constants). Stratum `containers`: the same generated credential structures presented in other container types - the whole credentials as a collections.UserDict / another MutableMapping subclass / the to_policy_values() object of a RequestContext subclass that adds service attributes / that RequestContext itself, nested documents as MappingProxyType / UserDict / OrderedDict / a read-only Mapping, lists as tuples (a tuple on the walked path, or a non-dict container as the compared value, is left unconstrained) - each decided through Enforcer.enforce and directly on the check object. Strata `context-sequence` (a RequestContext whose attributes are rebound / which is copied between calls) and `overlap` (two requests evaluating the same check at the same time, every single pre-emption). Non-trivial = the reference allows, or the path runs into a list / a '
         'non-container / a missing key; distinct = distinct (rule, target, creds).')
 ASSUMPTIONS = ['str() of a Python value is the "string form" the statement means',
                'one corner is left unconstrained (deny or recursive any-match accepted, raising not accepted): a list '
                'nested directly in a list while path segments remain',
+               'a tuple is not taken to be "a list" of the statement: either decision is accepted once the walk touches one (raising is not); the string form of a non-dict container is not pinned',
                'lhs never equals a registered kind (role, rule, http, https); both-end-quoted tokens are string tokens, not checks']
 LEVEL_TEXT = ('Seeded sampling of (check, credentials, target) with an independent reference walk; the structure '
               'generator puts every JSON type at every path position, which is where the failure modes live.')
 LEVEL_NOTE = 'trusted: the reference walk (20 lines, from the statement); Python str() as string form'
 PLAN = {'quick': dict(shards=4, wall=120), 'thorough': dict(shards=16, wall=400)}
-MIN = {'evaluations': 5000, 'allow_decisions': 150, 'deny_decisions': 1000, 'list_fanout_cases': 200, 'context_sequence_decisions': 500, 'overlapping_evaluations': 100}
+MIN = {'evaluations': 5000, 'allow_decisions': 150, 'deny_decisions': 1000, 'list_fanout_cases': 200, 'context_sequence_decisions': 500, 'overlapping_evaluations': 100, 'container_presentation_decisions': 10000, 'container_presentation_allows': 300}
 ANCHORS = ['oslo_policy._checks:GenericCheck.__call__', 'oslo_policy._checks:GenericCheck._find_in_dict',
            'oslo_policy.policy:Enforcer.enforce']
 REQUIRED_ANCHORS = ['oslo_policy.policy:Enforcer.enforce']
@@ -44,11 +48,27 @@ def gen_value(rnd, depth):
     return [gen_value(rnd, depth - 1) for _ in range(rnd.randint(0, 3))]
 
 
+def exotic(v):
+    """Does the value contain a container other than plain dict / list?"""
+    if isinstance(v, tuple) or (isinstance(v, collections.abc.Mapping) and type(v) is not dict):
+        return True
+    if isinstance(v, dict):
+        return any(exotic(e) for e in v.values())
+    if isinstance(v, list):
+        return any(exotic(e) for e in v)
+    return False
+
+
 def walk(v, segs, match, stats):
     """Reference: follow the path; a list fans out with any-match."""
+    if isinstance(v, tuple):
+        stats['tuple'] = True
+        return UNC                        # open: the statement speaks of lists only
     if not segs:
+        if isinstance(v, (collections.abc.Mapping, list)) and exotic(v):
+            return UNC                    # open: string form of a container that is not a plain dict / list
         return match == str(v)
-    if not isinstance(v, dict):
+    if not isinstance(v, collections.abc.Mapping):
         stats['noncontainer'] = True
         return False                      # path runs into a value that is not a container
     if segs[0] not in v:
@@ -79,12 +99,13 @@ RHS = ['s', 'APPLES', '1', 'True', 'None', '1.5', 'spam', '%(t1)s', '%(t2)s', 'p
 PH = re.compile(r'%\(([^)]+)\)s')
 
 
-def gen_case(rnd):
-    creds = gen_value(rnd, 4)
-    if not isinstance(creds, dict):
-        creds = {'a': creds}
-    if rnd.random() < 0.3:
-        creds['roles'] = []
+def gen_case(rnd, creds=None):
+    if creds is None:
+        creds = gen_value(rnd, 4)
+        if not isinstance(creds, dict):
+            creds = {'a': creds}
+        if rnd.random() < 0.3:
+            creds['roles'] = []
     target = {k: rnd.choice(SCAL) for k in rnd.sample(['t1', 't2', 't.1', 't-2', 'os:t', 'target.user.id'], rnd.randint(0, 4))}
     rhs = rnd.choice(RHS)
     if rnd.random() < 0.3:
@@ -200,6 +221,167 @@ def check_case(ctx, real, case):
                                   'expected': want, 'observed': got})
 
 
+class _MutMap(collections.abc.MutableMapping):
+    """A MutableMapping that is not a dict (what Enforcer.enforce documents to accept)."""
+
+    def __init__(self, data):
+        self._d = dict(data)
+
+    def __getitem__(self, k):
+        return self._d[k]
+
+    def __setitem__(self, k, v):
+        self._d[k] = v
+
+    def __delitem__(self, k):
+        del self._d[k]
+
+    def __iter__(self):
+        return iter(self._d)
+
+    def __len__(self):
+        return len(self._d)
+
+
+class _ROMap(collections.abc.Mapping):
+    """A read-only Mapping that is not a dict."""
+
+    def __init__(self, data):
+        self._d = dict(data)
+
+    def __getitem__(self, k):
+        return self._d[k]
+
+    def __iter__(self):
+        return iter(self._d)
+
+    def __len__(self):
+        return len(self._d)
+
+
+TOPS = ['userdict', 'mutablemapping', 'policy-values', 'request-context', 'dict']
+NESTED = ['dict', 'mappingproxy', 'userdict', 'ordereddict', 'romap', 'mixed']
+NESTED_MAKE = {'dict': dict, 'mappingproxy': lambda d: types.MappingProxyType(dict(d)), 'userdict': collections.UserDict,
+               'ordereddict': collections.OrderedDict, 'romap': _ROMap}
+CTX_ATTRS = ['project_id', 'user_id', 'domain_id', 'roles']
+_CTX_CLASS = []
+
+
+def _context_class():
+    """A service's RequestContext subclass that adds its own attributes to the policy values (the documented extension point)."""
+    if not _CTX_CLASS:
+        from oslo_context import context
+
+        class ServiceContext(context.RequestContext):
+            def __init__(self, extra, **kw):
+                super().__init__(overwrite=False, **kw)
+                self._extra = extra
+
+            def to_policy_values(self):
+                values = super().to_policy_values()
+                for k, v in self._extra.items():
+                    values[k] = v
+                return values
+        _CTX_CLASS.append(ServiceContext)
+    return _CTX_CLASS[0]
+
+
+def present(creds, spec):
+    """The JSON-shaped credentials of a case in the container types the presentation `spec` names.  Deterministic in
+    (creds, spec): the n-th nested dict / list in traversal order gets its type from (n + salt)."""
+    n = [spec['salt']]
+
+    def conv(v):
+        if isinstance(v, dict):
+            kind = spec['nested']
+            if kind == 'mixed':
+                n[0] += 1
+                kind = NESTED[n[0] % 5]
+            return NESTED_MAKE[kind]({k: conv(e) for k, e in v.items()})
+        if isinstance(v, list):
+            out = [conv(e) for e in v]
+            n[0] += 1
+            if spec['tuples'] == 'all' or (spec['tuples'] == 'some' and n[0] % 2):
+                return tuple(out)
+            return out
+        return v
+    top = {k: conv(e) for k, e in creds.items()}
+    if spec['top'] == 'userdict':
+        return collections.UserDict(top)
+    if spec['top'] == 'mutablemapping':
+        return _MutMap(top)
+    if spec['top'] in ('policy-values', 'request-context'):
+        kw = {k: top.pop(k) for k in CTX_ATTRS if k in top}
+        c = _context_class()(top, **kw)
+        return c if spec['top'] == 'request-context' else c.to_policy_values()
+    return top
+
+
+def check_containers(ctx, real, rnd, fixed=None):
+    """The credential structures of the main stratum presented in other container types (see RULE), decided through
+    Enforcer.enforce and directly on the check object; the reference walks an equal, separately built presentation."""
+    import copy
+    policy, enf = real
+    if fixed is not None:
+        case, spec = fixed, fixed['present']
+    else:
+        spec = dict(top=rnd.choice(TOPS), nested=rnd.choice(NESTED), tuples=rnd.choice(['none', 'none', 'some', 'all']),
+                    salt=rnd.randint(0, 9))
+        if spec['top'] == 'dict' and spec['nested'] == 'dict' and spec['tuples'] == 'none':
+            spec['nested'] = 'mixed'
+        creds = gen_value(rnd, 4)
+        if not isinstance(creds, dict):
+            creds = {'a': creds}
+        if spec['top'] in ('policy-values', 'request-context'):
+            # attributes every RequestContext has, next to the service's own
+            for k in rnd.sample(CTX_ATTRS, rnd.randint(1, 3)):
+                creds[k] = [rnd.choice(SCAL) for _ in range(rnd.randint(0, 3))] if k == 'roles' else rnd.choice(SCAL)
+        elif rnd.random() < 0.3:
+            creds['roles'] = []
+        case = gen_case(rnd, creds)
+        case['present'] = spec
+    stats = {}
+    ref = present(case['creds'], spec)
+    if spec['top'] == 'request-context':
+        ref = dict(ref.to_policy_values().items())       # a RequestContext stands for its policy values
+    plain = dict(case, creds=ref)
+    want = expected(plain, stats)
+    rule = rule_text(case)
+    base_allows = (want is True and case['wrap'] != 'not ') or (want is False and case['wrap'] == 'not ')
+    ctx.case([rule, case['target'], case['creds'], sorted(spec.items())], nontrivial=base_allows or bool(stats), stratum='containers')
+    ctx.count('container.top.' + spec['top'])
+    ctx.count('container.nested.' + spec['nested'])
+    if base_allows:
+        ctx.count('container_presentation_allows')
+    for via in ('enforce', 'check'):
+        if via == 'check' and spec['top'] == 'request-context':
+            continue                                     # only enforce() takes the context object itself
+        try:
+            rules = policy.Rules.from_dict({'p': rule})
+            given = present(case['creds'], spec)
+            if via == 'enforce':
+                enf.set_rules(rules)
+                got = bool(enf.enforce('p', copy.deepcopy(case['target']), given))
+            else:
+                got = bool(rules['p'](copy.deepcopy(case['target']), given, enf))
+        except Exception as e:
+            got = 'EXC:' + type(e).__name__
+        ctx.count('container_presentation_decisions')
+        if isinstance(got, str):
+            ctx.violation('container-credentials-raise', case, {'rule': rule, 'creds': case['creds'], 'presentation': spec, 'via': via,
+                                                                'target': case['target'], 'observed': got,
+                                                                'expected': 'a decision' if want == UNC else want})
+            return
+        if want == UNC:
+            ctx.unconstrained('tuple-on-path' if stats.get('tuple') else 'container-string-form' if not stats.get('list') else 'list-in-list-or-container-string-form')
+            continue
+        if got != want:
+            key = 'literal-comparison-mismatch' if case['mode'] == 'lit' else 'container-credentials-mismatch'
+            ctx.violation(key, case, {'rule': rule, 'creds': case['creds'], 'presentation': spec, 'via': via, 'target': case['target'],
+                                      'expected': want, 'observed': got})
+            return
+
+
 def check_context_sequence(ctx, real, rnd, fixed=None):
     """Credentials given as a RequestContext whose attributes the service rebinds between calls (and copies of it):
     every call is decided on the attribute values at that moment.  `fixed`: the case of a replay file."""
@@ -282,6 +464,8 @@ def run(ctx):
             ctx.sample({'rule': rule_text(case), 'target': case['target'], 'creds': case['creds']})
         if i % 40 == 0:
             check_context_sequence(ctx, (policy, enf), ctx.rnd)
+        if i % 5 == 2:
+            check_containers(ctx, (policy, enf), ctx.rnd)
     ctx.stratum('random', exhaustive=False)
     ctx.release()
     from pv.mon import sched
@@ -299,6 +483,8 @@ def replay(ctx, case):
     enf = policy.Enforcer(env.fresh_conf(), use_conf=False)
     if case.get('context_sequence'):
         return check_context_sequence(ctx, (policy, enf), None, fixed=case)
+    if case.get('present'):
+        return check_containers(ctx, (policy, enf), None, fixed=case)
     if case.get('overlap'):
         from pv.mon import sched
         try:
